@@ -20,7 +20,7 @@ import c16
 from common import Ctx, driver_json
 
 PROPERTY = "C01"
-LEAN_MODULES = ["Proofs.C01.Deribit"]
+LEAN_MODULES = ["Proofs.C01.Deribit", "Proofs.C01.DeribitHooks"]
 DRIVERS = ["driver_deribit"]
 RULE = ("[deribit] (a) buckets = (bar open/closed, what happened since the cached valuation: nothing / deposit / withdraw / a trade on the open bar / "
         "update() with due options / no valuation yet, number of positions, positions with/without a row in the book); "
